@@ -71,6 +71,6 @@ pub fn run(ctx: &mut Ctx) {
     }
     ctx.mark_exhaustive("every-char-length-and-fill", "types 6, 8, 17 x every payload length in characters x fill 0..=5, random contents, through the sentence path");
 
-    let n = ctx.tier.pick(20_000, 600_000);
+    let n = ctx.tier.pick(120_000, 600_000);
     ctx.run_proptest("random-any-length", &STD, n, payload_inputs(vec![6, 8, 17], LenMode::Any, Prop::C15, 6, 0.25), check);
 }
